@@ -59,6 +59,9 @@ mod handler;
 #[cfg(feature = "runtime")]
 pub mod runtime;
 
+#[cfg(hannibal_verif)]
+pub mod verif;
+
 #[cfg(all(feature = "async_runtime", feature = "tokio_runtime"))]
 compile_error!("only one runtime featured allowed");
 
